@@ -270,7 +270,17 @@ class Interface(object):
 
         key = method.gen_interface_key(s)
         if key in self.method_id_map:
-            c = self.method_id_map[key].parent_class
+            other = self.method_id_map[key]
+            if other is not method and other.function is not method.function:
+                # ANOTHER method of the service under the same name (a message
+                # name that equals a sibling's name): it would silently take the
+                # sibling's place, or lose its own
+                raise ValueError("%s: the methods %r and %r share the name %r"
+                    % (method.get_owner_name(s),
+                       six.get_function_name(other.function),
+                       six.get_function_name(method.function), method.name))
+
+            c = other.parent_class
             if c is None:
                 pass
 
